@@ -1,5 +1,7 @@
 //! C21 — TraversalQueue: real `aranya_runtime::storage::TraversalQueue` vs the Lean model,
 //! plus the S-level oracle (multiset reference) evaluated on the real outputs.
+//! After every operation a `dbg` request compares the EXACT internal state (entries in index
+//! order + partition, from the derived `Debug`) with the index-level Lean model.
 
 use aranya_runtime::storage::{Location, MaxCut, SegmentIndex, TraversalQueue};
 use vh::{fnv, Args, Recorder, Rng};
@@ -23,6 +25,84 @@ fn show_set(mut v: Vec<Location>) -> String {
         "[]".into()
     } else {
         format!("[{}]", v.iter().map(|l| show(*l)).collect::<Vec<_>>().join(","))
+    }
+}
+
+/// Exact internal state of the real queue, read off its derived `Debug`
+/// (`TraversalQueue { entries: [Location { max_cut: .., segment: .. }, ..], partition: N }`):
+/// `(entries as (mc, seg) in index order, partition)`.  Numbers that are part of an identifier
+/// (`u64_le`, ..) are skipped; an unexpected layout yields `Err` (reported as a mismatch).
+fn dbg_state(q: &TraversalQueue) -> Result<(Vec<(u64, u64)>, usize), String> {
+    let s = format!("{:?}", q);
+    let (pe, pp) = match (s.find("entries"), s.find("partition")) {
+        (Some(a), Some(b)) if a < b => (a, b),
+        _ => return Err(format!("dbg-parse-error {s}")),
+    };
+    let nums = |t: &str| -> Vec<u64> {
+        let b = t.as_bytes();
+        let mut v = vec![];
+        let mut i = 0;
+        while i < b.len() {
+            if b[i].is_ascii_digit() && (i == 0 || !(b[i - 1].is_ascii_alphanumeric() || b[i - 1] == b'_')) {
+                let st = i;
+                while i < b.len() && b[i].is_ascii_digit() {
+                    i += 1;
+                }
+                v.push(t[st..i].parse::<u64>().unwrap_or(u64::MAX));
+            } else {
+                i += 1;
+            }
+        }
+        v
+    };
+    let en = nums(&s[pe..pp]);
+    let pn = nums(&s[pp..]);
+    let ent = &s[pe..pp];
+    let order_ok = match (ent.find("max_cut"), ent.find("segment")) {
+        (Some(a), Some(b)) => a < b,
+        (None, None) => en.is_empty(),
+        _ => false,
+    };
+    if pn.len() != 1 || en.len() % 2 != 0 || !order_ok {
+        return Err(format!("dbg-parse-error {s}"));
+    }
+    Ok((en.chunks(2).map(|c| (c[0], c[1])).collect(), pn[0] as usize))
+}
+
+/// `dbg` request: answer `p=<partition> [seg:mc,...]` (index order) + S-level oracle on the
+/// internal layout: partition within bounds, entries below it = the reference's uncovered
+/// multiset, entries at/above it = the covered multiset.
+fn do_dbg(rec: &mut Recorder, q: &TraversalQueue, r: &Ref) {
+    match dbg_state(q) {
+        Err(e) => {
+            rec.line("dbg", e.clone());
+            rec.oracle_fail(e);
+        }
+        Ok((ent, p)) => {
+            let body = ent.iter().map(|(m, s)| format!("{s}:{m}")).collect::<Vec<_>>().join(",");
+            rec.line("dbg", format!("p={p} [{body}]"));
+            if p > ent.len() {
+                rec.oracle_fail(format!("partition {p} beyond len {}", ent.len()));
+                return;
+            }
+            let mut unc: Vec<(u64, u64)> = ent[..p].to_vec();
+            let mut cov: Vec<(u64, u64)> = ent[p..].to_vec();
+            let mut wu: Vec<(u64, u64)> = r.e.iter().filter(|x| !x.2).map(|x| (x.0, x.1)).collect();
+            let mut wc: Vec<(u64, u64)> = r.e.iter().filter(|x| x.2).map(|x| (x.0, x.1)).collect();
+            unc.sort();
+            cov.sort();
+            wu.sort();
+            wc.sort();
+            if unc != wu || cov != wc {
+                rec.oracle_fail(format!(
+                    "internal layout: uncovered {:?} covered {:?}, reference uncovered {:?} covered {:?}",
+                    unc, cov, wu, wc
+                ));
+            }
+            if q.all_covered() != (p == 0) || q.is_empty() != ent.is_empty() {
+                rec.oracle_fail("all_covered/is_empty disagree with the internal layout");
+            }
+        }
     }
 }
 
@@ -190,6 +270,8 @@ fn run_case(rec: &mut Recorder, ops: &[String]) {
             }
             _ => panic!("bad op {op}"),
         }
+        // exact internal state after every operation (entries order + partition)
+        do_dbg(rec, &q, &r);
         // oracle: at most one entry per segment when push_duplicate is not in play
         if !mixed_dup {
             let mut segs: Vec<u64> = r.e.iter().map(|x| x.1).collect();
@@ -274,7 +356,7 @@ fn main() {
     if let Some(p) = &args.replay {
         let ops: Vec<String> = vh::read_replay_input(p)
             .into_iter()
-            .filter(|l| l != "new")
+            .filter(|l| l != "new" && l != "dbg")
             .collect();
         rec.begin_case();
         run_case(&mut rec, &ops);
